@@ -41,39 +41,29 @@ def valid_in(fmt, fs):
 
 
 def value_reliable(info):
-    """formats on which the API-level value of the *implementation* is known to be trustworthy for every
-    Number (so that `pf` ops compare values): same mantissa radix and exponent base (the fast path mis-scales
-    mixed bases, DESIGN section 8)."""
-    return info["radix"] == info["base"]
+    """formats on which `pf` ops compare values. Was `radix == exponent base` while the native fast path
+    mis-scaled mixed bases; fixed in /repo (5add295), so every format qualifies now."""
+    return True
 
 
 def long_reliable(info):
-    """8-digit fast path + per-buffer counting mis-count when the separator is set but the integer or fraction
-    iterator is contiguous (DESIGN section 8, C13): keep such formats to `pn` ops for long digit runs."""
+    """formats on which long digit runs are compared at API level (`pf`); the others get `pn` ops only.
+    Excluded: integer or fraction flags = I+T+C exactly (no L): `is_itc!(@first)` answers differently at buffer
+    start (prev = None) and after a sign / decimal point, so the stored integer/fraction slices are re-scanned
+    differently from the first scan and the many-digit mantissa is built from a separator byte (C13 finding)."""
     if info["sep"] == 0:
         return True
-    # I+T+C exactly (no L): `is_itc!(@first)` answers differently at buffer start (prev = None) and after a
-    # sign / decimal point, so the stored integer/fraction slices are re-scanned differently from the first scan
-    # and the many-digit mantissa is built from a separator byte (C13 finding); keep those to `pn`.
     fl = info["fmt"] >> 32
+
     def comp(shift):
         return tuple(bool(fl >> (shift + 3 * k) & 1) for k in range(4))  # (i, l, t, c)
-    if comp(0) == (True, False, True, True) or comp(1) == (True, False, True, True):
-        return False
-    return info["int_sep"] and info["frac_sep"]
+    return comp(0) != (True, False, True, True) and comp(1) != (True, False, True, True)
 
 
 def risky_value(info, o, s):
-    """non-decimal mantissa radix with an exponent of 3+ digits: the power-of-two conversion (binary.rs) returns
-    infinity for a zero mantissa with a large exponent and wraps exponents near 2^32/bits (C05/C06 findings of the
-    value layer, outside the syntax model) -> such inputs are compared at component level (`pn`) only"""
-    if info["radix"] == 10:
-        return False
-    b = s.encode("latin-1") if isinstance(s, str) else s
-    for e in (o.exp, o.exp ^ 0x20):
-        k = b.find(bytes([e]))
-        if k >= 0 and len(b) - k - 1 >= 3:
-            return True
+    """inputs whose *value* conversion is known to be wrong in the implementation (kept to `pn`). Was: non-decimal
+    radix with a 3+ digit exponent (zero mantissa -> infinity, exponent wrap in calculate_power2); fixed in /repo
+    (ead3b71, 220c4cc), so nothing is excluded now."""
     return False
 
 
